@@ -257,6 +257,12 @@ class Hooks:
     def after(self, real, op, pre, err, w):
         ctx, t = self.ctx, op["t"]
         cs = self.cs(op)
+        if getattr(real, "unconstrained", None):
+            # audit 3 (B5): the saver wrote, but under the working directory of the moment - where it writes after a chdir is not in the
+            # property text: recorded, no verdict, and the history ends here (storeops.Real.apply, saverSave)
+            ctx.info("saverSave/relative-folder-denotes-the-directory-at-construction", False, True)
+            self.cut = True
+            return
         if real.uds:
             bad = real.changed_uds()
             ctx.oracle("no operation changes a unitary dictionary the caller owns (keys and tensor bytes)", not bad, cs,
@@ -359,7 +365,7 @@ class Hooks:
                         if extra:
                             ctx.count("load_into_receiver_whose_dictionary_has_letters_the_file_lacks")
                             ctx.oracle("after load the receiver's unitary dictionary is EXACTLY the saved one: the letters only the receiver had are gone",
-                                       err is None and list((now["ud"] or {}).keys()) == list(snap["ud"].keys()), cs,
+                                       err is None and sorted((now["ud"] or {}).keys()) == sorted(snap["ud"].keys()), cs,   # audit 3 (B9): as SETS - letter order is not constrained
                                        detail={"receiver_had": list(pre["snap"]["ud"].keys()), "file_has": list(snap["ud"].keys()), "receiver_has": list((now["ud"] or {}).keys())},
                                        sig="load/dict-replaced", theorem="C11_load_replaces_dict")
                     if ls["dirty"]:
@@ -647,8 +653,14 @@ def stream_case(ctx, case):
                 reserved = any(k in st.networks for k in keys) or (hasattr(st, "unitary_dict") and "unitary_dict" in keys)
                 ctx.oracle("save(open file object) refuses exactly the reserved names", (err is not None) == reserved, cs, detail={"err": err},
                            sig="saveS/reserved", theorem="C11_save_stream")
-                ctx.oracle("save(open file object) leaves every byte in front of the object's position unchanged (a refused one: the whole object)",
-                           after[:a] == before[:a] and (err is None or after == before), cs, sig="saveS/prefix", theorem="C11_save_stream")
+                ctx.oracle("save(open file object) leaves every byte in front of the object's position unchanged",
+                           after[:a] == before[:a], cs, sig="saveS/prefix", theorem="C11_save_stream")
+                if err is not None:
+                    # audit 3 (B9): WHICH bytes a refused save leaves behind the position is a partial effect after an exception - the
+                    # property only says "reserved names refused": recorded, never judged
+                    ctx.info("saveS/refused-save-leaves-the-whole-object-unchanged", after == before, True)
+                    if after != before:
+                        segs.append((a, len(after), None))   # whatever it left is opaque data for the later positions
                 if err is None:
                     segs.append((a, len(after), snap))
                     ctx.count("stream_checkpoint_appended" + (":equal_size_as_an_earlier_one" if any(e - b == len(after) - a for b, e, sn in segs[:-1] if sn) else ""))
@@ -729,8 +741,16 @@ def stream_case(ctx, case):
                     ctx.point(f"{t}.{comp}", lvl, iw[comp], cm[comp], cs, exact=True, sig=f"{t}/{comp}", theorem=thm)
                 if extra is not None:
                     ms = (mw.get("streams") or {}).get("0", {"recs": []})
-                    ctx.point("saveS.stream", lvl, extra["segs"], so.tuplify([[r[0], r[1]] for r in ms["recs"]]), cs, exact=True,
-                              sig="saveS/stream-contents", theorem="C11_save_stream (the archive written at the position is the snapshot; everything in front is kept)")
+                    # audit 3 (B9): the property fixes the CONTENTS of a checkpoint, not the order of the archive's top-level keys (nor of
+                    # the unitary dictionary's letters): both sides are compared with their entries sorted by key
+                    i_st = so.tuplify([[r[0], so.by_key(r[1])] for r in extra["segs"]])
+                    m_st = so.tuplify([[r[0], so.by_key(r[1])] for r in ms["recs"]])
+                    if err is None:
+                        ctx.point("saveS.stream", lvl, i_st, m_st, cs, exact=True, sig="saveS/stream-contents",
+                                  theorem="C11_save_stream (the archive written at the position is the snapshot; everything in front is kept)")
+                    else:
+                        # a REFUSED save: what the file object holds afterwards is a partial effect (the prefix is judged by saveS/prefix)
+                        ctx.info("saveS/stream-contents-after-a-refused-save", i_st, m_st)
         ctx.case({"kind": "stream", "plan": case["plan"], "tseed": case["tseed"]}, nontrivial=nontrivial,
                  sample={"stream_ops": [o["t"] for o in case["plan"]][:40], "tseed": case["tseed"]})
         ctx.count("stream_cases_with_autoload_from_nonzero_position" if nontrivial else "stream_cases_without")
@@ -824,7 +844,8 @@ def saver_case(ctx, case):
             for r, ds, fs in os.walk(base):
                 for f in fs:
                     p = os.path.join(r, f)
-                    out[p] = (os.path.getsize(p), os.stat(p).st_mtime_ns)
+                    # audit 3 (B14): the content too - a file rewritten with equal size within the clock's granularity is still "written"
+                    out[p] = (os.path.getsize(p), os.stat(p).st_mtime_ns, hashlib.sha1(open(p, "rb").read()).hexdigest())
             return out
 
         def listing():
@@ -882,13 +903,14 @@ def saver_case(ctx, case):
                     with torch.no_grad():   # the state changes between the periods, as in training
                         st.rbm_am.weights.add_(0.125)
         os.chdir(old_cwd)
-        # the property itself, on the implementation: the checkpoints of a saver created with a RELATIVE folder live under the directory
-        # that folder denoted WHEN THE SAVER WAS CREATED, wherever the caller is when they are written
+        # audit 3 (B5): WHERE the callback writes after the caller changed directory is not in C11's text (the docstring only says "the
+        # directory in which to save the files"; a saver that keeps the path as written and creates it at write time still saves, reloads
+        # bit-identically and can save any number of times): the present code's rule (the folder as it resolved when the saver was created)
+        # is RECORDED, never judged
         if init_err is None:
             want_dir = comps(os.path.join(cwd0, *case["folder"]))
             all_wrote = (impl["wrote"] or []) if isinstance(impl, dict) else [p for ev in impl for p in (ev["wrote"] or [])]
-            ctx.oracle("every file ModelSaver writes lies in <folder_path as it resolved when the saver was created>", all(p[:-1] == want_dir for p in all_wrote), cs,
-                       detail={"folder": want_dir, "wrote": all_wrote[:6]}, sig="saver/folder-at-construction", theorem="C11_saver_path")
+            ctx.info("saver/folder-at-construction", all(p[:-1] == want_dir for p in all_wrote), True)
         if ctx.driver is not None:
             m = ctx.driver.call("c11.saverPath", cwd0=comps(cwd0), folder={"abs": bool(case["abs"]), "comps": (comps(cwd0) if case["abs"] else []) + list(case["folder"])},
                                 fileName=tmpl, period=case["period"], saveInitial=bool(case["si"]), dirs=dirs0, files=files0,
@@ -897,8 +919,11 @@ def saver_case(ctx, case):
             thm = "C11_saver_path"
             # what an undocumented `metadata` object or a file name that is no one-blank format string does is not constrained by the property
             # text (the present code refuses at the first write): compared with the model at aux level only
-            lvl = "aux" if case["meta"].startswith("other") or case["fname"] >= 3 else "property"
-            ctx.point("saver.init.refused", "property", init_err is not None, m["initError"] is not None, cs, exact=True, sig="saver/init-refused", theorem=thm)
+            # audit 3 (B3/B5): those classes are malformed / undocumented inputs -> ctx.info (no verdict at all, not even auxiliary)
+            documented = not (case["meta"].startswith("other") or case["fname"] >= 3)
+            # audit 3 (B3): WHEN ModelSaver refuses (at construction or at the first write; an undocumented metadata object, a regular file
+            # in the way of the folder) is not in C11's text: recorded only
+            ctx.info("saver/init-refused", init_err is not None, m["initError"] is not None)
             if init_err is None and m["initError"] is None:
                 mod = []
                 for tg in m["targets"]:
@@ -912,7 +937,17 @@ def saver_case(ctx, case):
                     ref = any(x["refused"] for x in mod)
                     mod = {"refused": ref, "wrote": None if ref else sorted({tuple(p) for x in mod for p in x["wrote"]})}
                     mod["wrote"] = None if ref else [list(p) for p in mod["wrote"]]
-                ctx.point("saver.files", lvl, so.tuplify(impl), so.tuplify(mod), cs, exact=True, sig="saver/files", theorem=thm)
+                # the full paths (the DIRECTORY of every file): recorded only (B5); for the undocumented classes nothing else is compared
+                ctx.info("saver/files" + ("" if documented else ":undocumented-metadata-or-file-name"), so.tuplify(impl), so.tuplify(mod))
+                if documented:
+                    # what the property does say ("can be saved any number of times, as the periodic model-saving callback does"; the file
+                    # is named by the epoch): a saver of a documented form that was constructed saves at every due event, under the
+                    # formatted NAME, wherever the caller is - refusal flag and file names per event, directories left out
+                    def proj(x):
+                        if isinstance(x, dict):
+                            return {"refused": x["refused"], "names": None if x["wrote"] is None else sorted({p[-1] for p in x["wrote"]})}
+                        return [proj(y) for y in x]
+                    ctx.point("saver.events", "property", so.tuplify(proj(impl)), so.tuplify(proj(mod)), cs, exact=True, sig="saver/events", theorem=thm)
         ctx.case({k: v for k, v in case.items()}, nontrivial=init_err is None and not case["abs"], sample={"saver": {k: case[k] for k in ("folder", "abs", "meta", "mode")}})
     finally:
         os.chdir(old_cwd)
